@@ -11,6 +11,9 @@ use noodles_bgzf as bgzf;
 
 use crate::{input, Input};
 
+/// The number of bytes inspected for format detection: the maximum size of a BGZF block.
+const DETECT_PREFIX_LEN: u64 = 1 << 16;
+
 /// A genotype reader builder.
 #[derive(Debug)]
 pub struct Builder {
@@ -49,15 +52,25 @@ impl Builder {
     where
         R: 'static + io::BufRead,
     {
+        // Detection must not depend on how much data the first read happens to return (e.g. on a
+        // pipe), so we read a prefix large enough to hold a full BGZF block and put it back after
+        let mut prefix = Vec::new();
+        reader
+            .by_ref()
+            .take(DETECT_PREFIX_LEN)
+            .read_to_end(&mut prefix)?;
+
         let compression_method = match self.compression_method {
             Some(compression_method) => compression_method,
-            None => CompressionMethod::detect(&mut reader)?,
+            None => CompressionMethod::detect(&prefix),
         };
 
         let format = match self.format {
             Some(format) => format,
-            None => Format::detect(&mut reader, compression_method)?,
+            None => Format::detect(&prefix, compression_method)?,
         };
+
+        let reader = io::Cursor::new(prefix).chain(reader);
 
         let reader: super::DynReader = match compression_method {
             Some(CompressionMethod::Bgzf) => {
@@ -122,16 +135,8 @@ pub enum Format {
 }
 
 impl Format {
-    fn detect<R>(
-        reader: &mut R,
-        compression_method: Option<CompressionMethod>,
-    ) -> io::Result<Format>
-    where
-        R: io::BufRead,
-    {
+    fn detect(src: &[u8], compression_method: Option<CompressionMethod>) -> io::Result<Format> {
         const BCF_MAGIC_NUMBER: [u8; 3] = *b"BCF";
-
-        let src = reader.fill_buf()?;
 
         if let Some(compression_method) = compression_method {
             if compression_method == CompressionMethod::Bgzf {
@@ -161,20 +166,10 @@ pub enum CompressionMethod {
 }
 
 impl CompressionMethod {
-    fn detect<R>(reader: &mut R) -> io::Result<Option<Self>>
-    where
-        R: io::BufRead,
-    {
+    fn detect(src: &[u8]) -> Option<Self> {
         const GZIP_MAGIC_NUMBER: [u8; 2] = [0x1f, 0x8b];
 
-        let src = reader.fill_buf()?;
-
-        if let Some(buf) = src.get(..GZIP_MAGIC_NUMBER.len()) {
-            if buf == GZIP_MAGIC_NUMBER {
-                return Ok(Some(CompressionMethod::Bgzf));
-            }
-        }
-
-        Ok(None)
+        src.starts_with(&GZIP_MAGIC_NUMBER)
+            .then_some(CompressionMethod::Bgzf)
     }
 }
